@@ -1,6 +1,7 @@
 import FFVerif.Props.C10
 import FFVerif.Props.C10Asm
 import FFVerif.Props.C07
+import FFVerif.Props.C10Shifts
 import FFVerif.Pins.pinFrequencyShifts
 import FFVerif.Pins.C10_secondOrder_source_shape
 import FFVerif.Pins.C10_secondOrderFF_source_shape
@@ -30,6 +31,26 @@ import FFVerif.Pins.C07_body_get_control_matrix
 #print axioms FFVerif.C07.cleanup_freq
 #print axioms FFVerif.C07.getFF_spec
 #print axioms FFVerif.C07.served_value_is_fresh
+#print axioms FFVerif.C10.frequency_shifts_entries
+#print axioms FFVerif.C10.frequency_shifts_single_spectrum_is_broadcast
+#print axioms FFVerif.C10.frequency_shifts_subset_is_slice
+#print axioms FFVerif.C10.frequency_shifts_linear_in_spectrum
+#print axioms FFVerif.C10.frequency_shifts_congr_intermediates
+#print axioms FFVerif.C10.frequency_shifts_congr
+#print axioms FFVerif.C10.frequency_shifts_intermediates_reused
+#print axioms FFVerif.C10.secondOrderFF_loop_basis_change
+#print axioms FFVerif.C10.secondOrderFF_basis_change_of_mix
+#print axioms FFVerif.C10.secondOrderFF_basis_change
+#print axioms FFVerif.C10.frequency_shifts_basis_change
+#print axioms FFVerif.C10.frequency_shifts_basis_change_matrix
+#print axioms FFVerif.C10.frequency_shifts_basis_change_from_scratch
+#print axioms FFVerif.C10.etm_basis_change_second_order_from_scratch
+#print axioms FFVerif.C10.frequency_shifts_hermitian_part
+#print axioms FFVerif.C10.frequency_shifts_hermitian_part_from_scratch
+#print axioms FFVerif.C10.frequency_shifts_symmetric_part
+#print axioms FFVerif.C10.cumulant_uses_antisymmetric_part
+#print axioms FFVerif.C10.cumulant_single_qubit_uses_antisymmetric_part
+#print axioms FFVerif.C10.cumulant_second_order_from_antisymmetric_part
 #print axioms FFVerif.Pins.pinFrequencyShifts
 #print axioms FFVerif.C10.secondOrder_source_shape
 #print axioms FFVerif.C10.secondOrderFF_source_shape
